@@ -134,7 +134,7 @@ def replayer(name, args, kwargs, meta):
         a, b, mode, e = mr.ADM[args[0]]
         why = mr.history(args[0])
         desc = "pages in states %r / %r (file, index, hash entry); `db reindex%s`; then page a.zo %s; then `db reindex`" % (
-            mr.VALID[a], mr.VALID[b], ["", " a.zo", " s/b.zo"][mode],
+            mr.VALID[a], mr.VALID[b], "".join(" " + r for r in mr.MODE_RELS[mode]),
             "untouched" if e < 0 else ("deleted" if not mr.FILE_STATES[e] else "becomes %r" % mr.TEXTS[0][mr.FILE_STATES[e]]))
         return bool(why), {"summary": desc + ": " + (why or "index == fresh index"), "why": why}
     from freezegun import freeze_time
